@@ -34,22 +34,72 @@ class Facts(Roles):
 
     def cases(self) -> List[tuple]:
         """(path condition, normal form) of every `return`, as a sorted list"""
+        from .sym import cond_literals
         out = []
-        for s in self.stmts:
-            if isinstance(s, ast.Return):
-                out.append((tuple(self.conds(s)), str(self.at(s, s.value)) if s.value is not None else "None"))
+        rets = [s for s in self.stmts if isinstance(s, ast.Return)]
+        has_bool_const = any(isinstance(s.value, ast.Constant) and isinstance(s.value.value, bool) for s in rets)
+        for s in rets:
+            v = s.value
+            shaped = isinstance(v, (ast.Compare, ast.BoolOp)) or (isinstance(v, ast.UnaryOp) and isinstance(v.op, ast.Not)) or \
+                (isinstance(v, ast.Call) and dotted(v.func) in ("any", "all", "isinstance", "bool"))
+            if has_bool_const and shaped:
+                # `return <test>` next to `return True / False`: the same function written as the two cases of the test
+                env = self.snaps.get(id(s))
+                base = self.conds(s)
+                out.append((tuple(sorted(set(base + cond_literals(v, True, env)))), "True"))
+                out.append((tuple(sorted(set(base + cond_literals(v, False, env)))), "False"))
+                continue
+            out.append((tuple(self.conds(s)), str(self.at(s, s.value)) if s.value is not None else "None"))
         return sorted(out)
 
     def emits(self, target: str) -> List[tuple]:
-        """(path condition, 'append|extend <normal form>') of every `<target>.append(x)` / `.extend(xs)` / `target += xs`"""
+        """(path condition, 'append|extend <normal form>') of every `<target>.append(x)` / `.extend(xs)` / `target += xs`.
+        An append inside a for-loop is reported as the extension by the comprehension it amounts to (path condition of the loop),
+        so `for x in xs: t.append(f(x))` and `t.extend(f(x) for x in xs)` are one fact."""
+        from .cfg import enclosing_loops
+        loops = enclosing_loops(self.f.node)
         out = []
         for s in self.stmts:
+            verb, arg = None, None
             if isinstance(s, ast.Expr) and isinstance(s.value, ast.Call) and len(s.value.args) == 1 and \
                     dotted(s.value.func) in (target + ".append", target + ".extend"):
-                out.append((tuple(self.conds(s)), "%s %s" % (s.value.func.attr, self.at(s, s.value.args[0]))))
+                verb, arg = s.value.func.attr, s.value.args[0]
             elif isinstance(s, ast.AugAssign) and isinstance(s.op, ast.Add) and _tname(s.target) == target:
-                out.append((tuple(self.conds(s)), "extend %s" % self.at(s, s.value)))
+                verb, arg = "extend", s.value
+            if verb is None:
+                continue
+            encl = [l for l in loops.get(id(s), []) if isinstance(l, ast.For)]
+            lp = encl[-1] if encl else None
+            if verb == "append" and lp is not None and loops.get(id(s), [])[-1] is lp and len(lp.body) == 1 and not lp.orelse and \
+                    any(isinstance(n, ast.Name) and n.id in {x.id for x in ast.walk(lp.target) if isinstance(x, ast.Name)} for n in ast.walk(arg)):
+                tests = self._tests_between(lp, s)
+                if tests is not None:
+                    comp = ast.ListComp(elt=arg, generators=[ast.comprehension(target=lp.target, iter=lp.iter, ifs=tests, is_async=0)])
+                    ast.fix_missing_locations(comp)
+                    out.append((tuple(self.conds(lp)), "extend %s" % self.at(lp, comp)))
+                    continue
+            if verb == "extend" and isinstance(arg, ast.GeneratorExp):
+                arg = ast.ListComp(elt=arg.elt, generators=arg.generators)
+                ast.fix_missing_locations(arg)
+            out.append((tuple(self.conds(s)), "%s %s" % (verb, self.at(s, arg))))
         return sorted(out)
+
+    def _tests_between(self, loop, stmt):
+        """the if-tests (negated for else-branches) on the way from the loop body down to stmt; None if stmt is not reached through
+        plain ifs only"""
+        def find(block, acc):
+            for st in block:
+                if st is stmt:
+                    return acc
+                if isinstance(st, ast.If):
+                    r = find(st.body, acc + [st.test])
+                    if r is not None:
+                        return r
+                    r = find(st.orelse, acc + [ast.UnaryOp(op=ast.Not(), operand=st.test)])
+                    if r is not None:
+                        return r
+            return None
+        return find(loop.body, [])
 
     def returns(self) -> List[str]:
         return [str(self.at(s, s.value)) for s in self.stmts if isinstance(s, ast.Return) and s.value is not None]
